@@ -401,10 +401,12 @@ CONC_SCEN = {
     26: ([10, 20], [O('clear'), O('del', 2)]),
     27: ([0, 0], [O('set', 1, 11), O('set', 1, 12)]),
     28: ([10, 0], [O('set', 1, 11), O('set', 1, 12)]),
+    # a membership test on a key with a history; that process then keeps its handle, idle, while another one stores another key
+    29: ([10, 0], [O('contains', 1), O('set', 2, 21)]),
 }
-DIR_SCEN = [11, 12, 13, 14, 15, 16, 17, 18, 19, 20, 21, 22, 23, 25, 26, 27, 28]
+DIR_SCEN = [11, 12, 13, 14, 15, 16, 17, 18, 19, 20, 21, 22, 23, 25, 26, 27, 28, 29]
 SQL_SCEN = DIR_SCEN
-FILE_SCEN = [12, 13, 14, 15, 16, 18, 20, 23, 24]      # (writer/writer is promised for directory and SQL archives only)
+FILE_SCEN = [12, 13, 14, 15, 16, 18, 20, 23, 24, 29]      # (writer/writer is promised for directory and SQL archives only)
 
 
 def conc_schedules(module, gen, scen, devs, maxsw, work):
@@ -426,7 +428,9 @@ def conc_schedules(module, gen, scen, devs, maxsw, work):
 class Stepped(object):
     """a worker process parked before each of its file-system calls"""
     def __init__(self, backend, keys, init, op, wd, noinit):
-        spec = {'init': init, 'op': op, 'keys': keys, 'noinit': noinit}
+        # history: the initial entries have been overwritten once (a sqlite table keeps a row per store, a directory entry
+        # has been replaced); linger: a process that has finished its operation keeps its handle and stays alive, idle
+        spec = {'init': init, 'op': op, 'keys': keys, 'noinit': noinit, 'history': True, 'linger': True}
         self.p = subprocess.Popen([common.PY, '-m', 'harness.fs_worker', common.REPO, backend, wd, 'step', json.dumps(spec)],
                                   stdin=subprocess.PIPE, stdout=subprocess.PIPE, stderr=subprocess.PIPE, text=True, env=worker_env(), cwd=wd)
         if self.p.stdout.readline().strip() != 'ready':
